@@ -607,11 +607,144 @@ class _FuncEval:
         for x in out:
             ast.fix_missing_locations(x)
         self.ev.deep_inlined.add(f.qual)
+        self.s.calls.append(CallRec(("expanded", f.qual), (), (), st.cond, tuple(self.loop_stack), call, ("expanded", f.qual),
+                                    tuple(self.try_stack), True))  # keeps the call-graph edge; the body is analysed in place
+        return out
+
+    def _resolve_helper(self, fn: ast.AST, st: State):
+        """(FuncInfo, receiver expression | None) for the callee expression of a call, without recording anything."""
+        f = None
+        recv_expr = None
+        if isinstance(fn, ast.Name):
+            if st.env.get(fn.id) is None:
+                r = self.prog.resolve_name(self.m, fn.id)
+                t = self.ref_to_term(r) if r is not None else None
+                if t is not None and t[0] == "func":
+                    f = self.prog.functions.get(t[1])
+        elif isinstance(fn, ast.Attribute) and isinstance(fn.value, ast.Name):
+            recv = self.name(fn.value.id, st)
+            b = self.attr(recv, fn.attr, fn)
+            if b[0] == "func":
+                f = self.prog.functions.get(b[1])
+            else:
+                res = self.resolve_method(recv, fn.attr)
+                if res is not None:
+                    f = res[0]
+            if f is not None and f.kind in ("method", "classmethod") and recv[0] in ("self", "clsparam", "param"):
+                recv_expr = fn.value
+        return f, recv_expr
+
+    def _fuse_generator(self, s: ast.For, st: State) -> Optional[list]:
+        """`for T in G(args): B` where the private helper G is a generator `prefix; loop{... yield V ...}` with a single yield
+        directly in its single loop: fused into  prefix; loop{... T = V; B ...}.  Equivalent because a generator runs in lock
+        step with its consumer; requires that B has no `continue` of the consumer loop (it would skip the rest of the
+        generator's iteration in the fused form) and no else clause, and that G does nothing after its loop."""
+        import copy
+        if not self.ev.deep_inline_in or s.orelse or not isinstance(s.iter, ast.Call):
+            return None
+        call = s.iter
+        if any(isinstance(a, ast.Starred) for a in call.args) or any(k.arg is None for k in call.keywords):
+            return None
+        f, recv_expr = self._resolve_helper(call.func, st)
+        if f is None or isinstance(f.node, ast.Lambda) or f.module is not self.m or not self._deep(f):
+            return None
+        if not (f.name.startswith("_") and not f.name.startswith("__")) or f.nested or f.nested_classes:
+            return None
+        a = f.node.args
+        if a.vararg or a.kwarg or a.posonlyargs:
+            return None
+        body = [b for b in f.node.body if not (isinstance(b, ast.Expr) and isinstance(b.value, ast.Constant))]
+        if not body or not isinstance(body[-1], (ast.For, ast.While)) or body[-1].orelse:
+            return None
+        loop, prefix = body[-1], body[:-1]
+        bad = (ast.Return, ast.Yield, ast.YieldFrom, ast.Await, ast.FunctionDef, ast.Lambda, ast.ClassDef, ast.Global, ast.Nonlocal)
+        if any(isinstance(n, bad) for p_ in prefix for n in ast.walk(p_)):
+            return None
+        ys = [(i, x) for i, x in enumerate(loop.body) if isinstance(x, ast.Expr) and isinstance(x.value, ast.Yield)]
+        n_y = sum(isinstance(n, (ast.Yield, ast.YieldFrom)) for n in ast.walk(loop))
+        if len(ys) != 1 or n_y != 1 or ys[0][1].value.value is None:
+            return None
+        if any(isinstance(n, (ast.Return, ast.Await, ast.Lambda, ast.FunctionDef, ast.ClassDef, ast.Try, ast.With)) for n in ast.walk(loop)):
+            return None
+        # the consumer body: no `continue` that targets the consumer loop
+        def has_continue(stmts):
+            for x in stmts:
+                if isinstance(x, ast.Continue):
+                    return True
+                if isinstance(x, (ast.For, ast.While, ast.FunctionDef, ast.ClassDef)):
+                    continue
+                for fld in ("body", "orelse", "handlers", "finalbody"):
+                    sub = getattr(x, fld, None)
+                    if isinstance(sub, list):
+                        if has_continue([h for h in sub if isinstance(h, ast.stmt)] + [b for h in sub if isinstance(h, ast.ExceptHandler) for b in h.body]):
+                            return True
+            return False
+        if has_continue(s.body):
+            return None
+        params = [p_.arg for p_ in a.args + a.kwonlyargs]
+        locals_ = set(params)
+        for n in ast.walk(f.node):
+            if isinstance(n, ast.Name) and isinstance(n.ctx, (ast.Store, ast.Del)):
+                locals_.add(n.id)
+        self.ev._expand_counter = getattr(self.ev, "_expand_counter", 0) + 1
+        suffix = f"__{f.name.strip('_')}{self.ev._expand_counter}"
+
+        class Ren(ast.NodeTransformer):
+            def visit_Name(self, n):
+                if n.id in locals_:
+                    return ast.copy_location(ast.Name(id=n.id + suffix, ctx=n.ctx), n)
+                return n
+        given: dict = {}
+        pos = list(a.args)
+        if recv_expr is not None:
+            if not pos:
+                return None
+            given[pos[0].arg] = recv_expr
+            pos = pos[1:]
+        elif f.kind in ("method", "classmethod"):
+            return None
+        if len(call.args) > len(pos):
+            return None
+        for p_, v in zip(pos, call.args):
+            given[p_.arg] = v
+        for k in call.keywords:
+            if k.arg in given or k.arg not in params:
+                return None
+            given[k.arg] = k.value
+        defaults = {}
+        for p_, d in zip(a.args[len(a.args) - len(a.defaults):], a.defaults):
+            defaults[p_.arg] = d
+        for p_, d in zip(a.kwonlyargs, a.kw_defaults):
+            if d is not None:
+                defaults[p_.arg] = d
+        out: list = []
+        for p_ in params:
+            v = given.get(p_, defaults.get(p_))
+            if v is None:
+                return None
+            out.append(ast.copy_location(ast.Assign(targets=[ast.Name(id=p_ + suffix, ctx=ast.Store())], value=v), call))
+        for x in prefix:
+            out.append(Ren().visit(copy.deepcopy(x)))
+        new_loop = Ren().visit(copy.deepcopy(loop))
+        i = ys[0][0]
+        yv = new_loop.body[i].value.value
+        bind = ast.copy_location(ast.Assign(targets=[copy.deepcopy(s.target)], value=yv), s)
+        new_loop.body[i:i + 1] = [bind] + list(s.body)
+        out.append(new_loop)
+        for x in out:
+            ast.fix_missing_locations(x)
+        self.ev.deep_inlined.add(f.qual)
+        self.s.calls.append(CallRec(("expanded", f.qual), (), (), st.cond, tuple(self.loop_stack), call, ("expanded", f.qual),
+                                    tuple(self.try_stack), True))  # keeps the call-graph edge; the body is analysed in place
         return out
 
     def stmt(self, s: ast.AST, st: State) -> Optional[State]:
         if self.ev.deep_inline_in and isinstance(s, (ast.Assign, ast.If)):
             blk = self._expand_loop_helper(s, st)
+            if blk is not None:
+                return self.block(blk, st)
+        if self.ev.deep_inline_in and isinstance(s, ast.For):
+            blk = self._fuse_generator(s, st)
             if blk is not None:
                 return self.block(blk, st)
         if isinstance(s, ast.Expr):
